@@ -22,9 +22,9 @@ type c10Case struct {
 	Env    string         `json:"env"`
 }
 
-var c10Universe = []string{"TestA - 1", "TestA - 2", "TestA - 10", "TestA/x - 1", "TestB - 1", "Test_1 - 1", "TestA/c_01 - 1", "TestA/c_1 - 1", "FuzzA/seed#0 - 1"}
+var c10Universe = []string{"TestA - 1", "TestA - 2", "TestA - 10", "TestA/x - 1", "TestB - 1", "Test_1 - 1", "TestA/c_01 - 1", "TestA/c_1 - 1", "FuzzA/seed#0 - 1", "TestA/9 - 10", "TestA/10 - 9"}
 
-var c10Bodies = []string{"a", "", "x\n\ny", "---", "[TestA - 1]", "\n", "/-/-/-/", " ", "b\n", "[TestB - 1]\nz", "\xff", "$1%d"}
+var c10Bodies = []string{"a", "", "x\n\ny", "---", "[TestA - 1]", "\n", "/-/-/-/", " ", "b\n", "[TestB - 1]\nz", "\xff", "$1%d", "k:\n[TestQ - 7]\nv"}
 
 func c10Gen(c *vfCtx, emit func(c10Case)) {
 	env := os.Getenv("UPDATE_SNAPS")
@@ -53,7 +53,7 @@ func c10Gen(c *vfCtx, emit func(c10Case)) {
 	}
 	rec(0, nil)
 	for si, sub := range subsets {
-		if !c.thorough() && len(sub) == 4 && si%8 != 0 {
+		if !c.thorough() && (len(sub) == 4 && si%16 != 0 || len(sub) == 3 && si%2 != 0) {
 			continue
 		}
 		if c.thorough() && len(sub) == 5 && si%6 != 0 {
